@@ -239,12 +239,32 @@ def check_C06(chk):
     header = "From Coq Require Import List Bool.\nFrom IPC Require Import RSet RSetCheck.\nImport ListNotations.\n"
     res, errors = C.coq_eval_sharded(header, todo, lambda p: "Eval vm_compute in (%d, %s)." % p, "c06", shard=20)
     bad = [seq_items[i] for i, _ in todo if res.get(i) != "true"]
+    # in-process build: TRACE ACCEPTANCE on the InprocSet LTS for the scenarios in which everything was sent before the first select
+    # (which ready member crossbeam's Select picks is its choice: every observed step must be enabled in the model and leave nothing pending)
+    itodo = []
+    for it in iitems:
+        c, rec = it["case"], it["rec"]
+        if c["mode"] != "after" or rec is None or rec["hang"] or c.get("level") == "ipc" and False:
+            continue
+        plans = "; ".join("([%s], %s)" % ("; ".join(str(k) for k in range(len(l))), "true" if h else "false") for l, h in c["plans"])
+        obs = "; ".join(("EMsg %d %d" % (e[0], e[3])) if e[1] == "M" else ("EClosed %d" % e[0]) for b in rec["batches"] for e in b if e[0] != "ERR")
+        itodo.append((len(itodo), "check_iset [%s] [%s] [%s]" % (plans, "; ".join(str(x) for x in rec["ids"]), obs), it))
+    iheader = "From Coq Require Import List Bool.\nFrom IPC Require Import InprocSet InprocSetCheck.\nImport ListNotations.\n"
+    ires, ierrors = C.coq_eval_sharded(iheader, [(i, t) for i, t, _ in itodo], lambda p: "Eval vm_compute in (%d, %s)." % p, "c06inproc", shard=10)
+    ibad = [it for i, t, it in itodo if ires.get(i) != "true"]
+    chk.coverage["inproc_set_scenarios_accepted"] = len(itodo) - len(ibad)
+    if ierrors:
+        chk.unproved("model evaluation (coqc on in-process receiver-set traces) failed", ierrors[0][-1500:])
+    if ibad and not fails:
+        it = ibad[0]
+        chk.unproved("trace acceptance InprocSetCheck.check_iset: the select results of the in-process build are not a run of the InprocSet LTS on %d of %d scenarios" % (len(ibad), len(itodo)),
+                     {"plan": plan_str(it["case"]["plans"]), "observed_batches": it["rec"]["batches"][:6], "ids": it["rec"]["ids"]})
     cov = chk.coverage
     cov["evaluations"] = len(items) + len(iitems)
     cov["traces_validated_against_impl"] = len(todo)
     cov["waits_checked_for_discipline"] = waits
     cov["distinct_nontrivial"] = len({plan_str(it["case"]["plans"]) + it["case"]["mode"] for it in items if len(it["case"]["plans"]) > 10 or it["case"]["mode"] != "after"})
-    cov["correspondence_mismatches"] = len(bad)
+    cov["correspondence_mismatches"] = len(bad) + len(ibad)
     cov["rule"] = ("rset driver: sets of 1..64 members (more than the batch capacity of 10 ready at once), 0..4 messages per member of mixed single/multi-packet sizes, "
                    "senders dropped or kept, 1..8 sender threads, members added before, during and after the traffic and - phased - after earlier members' closures were reported, EINTR injected into every 3rd wait; per-member "
                    "event oracle (messages in order, intact, tagged with the member's id, exactly one closure at the end, distinct ids); the selecting thread's system "
